@@ -23,6 +23,7 @@ import (
 	"sync"
 	"time"
 
+	ierrors "github.com/aptpod/iscp-go/errors"
 	"github.com/aptpod/iscp-go/transport"
 	rc "github.com/aptpod/iscp-go/transport/reconnect"
 
@@ -53,9 +54,10 @@ type call struct {
 type drv struct {
 	mu       sync.Mutex
 	rec      *h.Rec
-	over     bool // after End: nothing is recorded any more
-	closeErr bool // the underlying CloseWithStatus returns an error
-	lateOk   bool // a parked underlying Write does not fail by itself when its fake is closed: the script decides
+	over     bool  // after End: nothing is recorded any more
+	closeErr bool  // the underlying CloseWithStatus returns an error
+	lateOk   bool  // a parked underlying Write does not fail by itself when its fake is closed: the script decides
+	werr     error // what a scripted failing underlying Write returns (p.werr: "" generic, "normalClose": the peer closed normally)
 	dials    []string
 	ndial    int
 	nextDial int
@@ -232,6 +234,9 @@ func (f *fake) Write(bs []byte) error {
 			return nil
 		}
 		f.d.log("UWrite", "inc", f.inc, "tag", tag, "ok", false, "auto", false, "pos", 0)
+		if f.d.werr != nil {
+			return f.d.werr
+		}
 		return errFake
 	case <-closedC:
 		f.d.mu.Lock()
@@ -363,6 +368,10 @@ func run(sc *h.Scenario) *h.Rec {
 	d := &drv{rec: rec, dials: strsOf(sc.P["dials"]), wbusy: map[int]*call{}, lastEv: time.Now(), after: "fail"}
 	if a, _ := sc.P["after"].(string); a == "ok" {
 		d.after = "ok"
+	}
+	if we, _ := sc.P["werr"].(string); we == "normalClose" {
+		// what the coder websocket backend reports for a write after the peer's close frame with status 1000
+		d.werr = fmt.Errorf("write: %w", ierrors.ErrConnectionNormalClose)
 	}
 	if lo, _ := sc.P["lateOk"].(bool); lo {
 		d.lateOk = true
